@@ -62,7 +62,7 @@ PROPS = {
     "C10": {"modules": [P + "C10", P + "C10Refine", P + "C10Gen", P + "C10Load"], "streams": ["precomp", "fit"], "relevant": {"fit": [0, 1, 2, 3, 5], "predict": [0]}},
     "C11": {"modules": [P + "C11Map", P + "C11Family", P + "C11Perm", P + "C11Registry", P + "C11Gen", P + "C11GenPerm"], "streams": ["c11", "fit"], "relevant": {"fit": [0, 1, 2, 3, 5], "predict": [0]}},
     "C17": {"modules": [P + "C17", P + "C17Iter", P + "C17Refine", P + "C17Gen", P + "C17LearnRefine", P + "C17LearnAny", P + "C17PruneRefine"], "streams": ["learn", "fit", "measures"], "relevant": {"swap": None, "best": None, "prune": None, "iters": None, "predict": [1]}},
-    "C18": {"modules": [P + "C18", P + "C18Refine", P + "C18ParseRefine", P + "C18ConvRefine", P + "C18Load"], "streams": ["stream"]},
+    "C18": {"modules": [P + "C18", P + "C18Refine", P + "C18ParseRefine", P + "C18ConvRefine", P + "C18Load", P + "C18Chain"], "streams": ["stream"]},
     "C19": {"modules": [P + "C19"], "streams": ["persist"]},
     "C20": {"modules": [P + "C20", P + "C20Refine"], "streams": ["measures"]},
     "C12": {"modules": [P + "C12Arcs", P + "C12Pdf", P + "C12Refine", P + "C12PdfRefine", P + "C12Gen", P + "C13PropagateRefine"], "streams": ["knn"]},
